@@ -579,7 +579,9 @@ Step_C16 ==
 
 Step_C18 ==
     LET e == ev' IN
-    (e.name = "StartBatch") =>
+    \* a context id is the transaction hash followed by the message index of the creating message
+    /\ (e.name \in {"Call", "ModCreate"} /\ e.ok /\ "cidok" \in DOMAIN e) => e.cidok
+    /\ (e.name = "StartBatch") =>
         /\ \A r \in Issued :
               /\ r[1] = e.id /\ r[3] = height
               /\ e.id \in DOMAIN ctx' /\ r[2] = ctx'[e.id].batch
